@@ -109,7 +109,7 @@ def mixed_column(draw, min_size=0, max_size=6):
 COLLISION_NAMES = [
     "a", "A", "a_", "a b", "a__1", "a__1_", "col0_", "col1_", "sum", "cols", "T", "t", "class", "1a", "",
     None, "é", "name", "b", "B!", "_b", "b__2", "max", "column_names", "col__1", "x y", "x_y", "x  y",
-    "shape", "copy", "__", "0", "a___1", "a.__0", "a_ - _1",
+    "shape", "copy", "__", "0", "a___1", "a.__0", "a_ - _1", "a__01", "x__007", "a__00", "t", "_t", "class", "for",
 ]
 ident_names = st.sampled_from(["a", "b", "c", "x", "y", "k", "val", "key", "n"])
 collision_names = st.sampled_from(COLLISION_NAMES)
